@@ -85,7 +85,10 @@ func genHostileBytes(t *rapid.T, label string) B {
 	case 8:
 		return B(c20Magic + Prefix + "/a$\x00\x00\x00\x00\x00\x00\x03\xe9")
 	case 9:
-		return B(strings.Repeat("k", rapid.SampledFrom([]int{300, 5000, 70000}).Draw(t, label+".len")))
+		if DrawBool(t, 50, label+".plainLong") {
+			return B(strings.Repeat("k", rapid.SampledFrom([]int{300, 5000, 70000}).Draw(t, label+".len")))
+		}
+		return genLongRuneKey(t, label)
 	case 10:
 		return B("/")
 	case 11:
@@ -99,6 +102,22 @@ func genHostileBytes(t *rapid.T, label string) B {
 	default:
 		return B(rapid.SliceOfN(rapid.Byte(), 0, 12).Draw(t, label+".bytes"))
 	}
+}
+
+// genLongRuneKey: a long key with a multi-byte rune (or an invalid byte) at an offset around the limits at which such
+// values get cut (label values, log fields)
+func genLongRuneKey(t *rapid.T, label string) B {
+	limit := rapid.SampledFrom([]int{32, 64, 100, 128, 128, 200, 255, 256, 512, 1024}).Draw(t, label+".limit")
+	off := limit - rapid.IntRange(0, 4).Draw(t, label+".back")
+	mid := rapid.SampledFrom([]string{"\u00e9", "\u20ac", "\U0001d11e", "\xff", "\xc3"}).Draw(t, label+".rune")
+	return B(Prefix + "/" + strings.Repeat("k", maxInt(off-len(Prefix)-1, 0)) + mid + strings.Repeat("z", rapid.IntRange(0, 40).Draw(t, label+".tail")))
+}
+
+func maxInt(a, b int) int {
+	if a > b {
+		return a
+	}
+	return b
 }
 
 func genHostileRev(t *rapid.T, label string) int64 {
@@ -123,6 +142,9 @@ func genC20Req(t *rapid.T) c20Req {
 	if DrawBool(t, 12, "storageFault") {
 		r.StorageFault = rapid.SampledFrom([]string{"iter", "iter", "get", "commit"}).Draw(t, "sfault")
 	}
+	if r.Kind == "watch" && DrawBool(t, 25, "longRune") {
+		r.Key = genLongRuneKey(t, "keyL")
+	}
 	r.Flag = rapid.IntRange(0, 40).Draw(t, "flag")
 	r.NilKv = DrawBool(t, 10, "nilkv")
 	if r.Kind == "watch" && api == "etcd" {
@@ -130,6 +152,9 @@ func genC20Req(t *rapid.T) c20Req {
 		for i := 0; i < n; i++ {
 			m := c20WatchMsg{Kind: rapid.SampledFrom([]string{"create", "create", "create", "cancel", "empty"}).Draw(t, "m")}
 			m.Key, m.End = genHostileBytes(t, "wkey"), genHostileBytes(t, "wend")
+			if DrawBool(t, 25, "wLongRune") {
+				m.Key = genLongRuneKey(t, "wkeyL")
+			}
 			m.Rev = genHostileRev(t, "wrev")
 			m.ID = rapid.SampledFrom([]int64{0, 1, -1, 99999, math.MaxInt64}).Draw(t, "wid")
 			m.PrevK = DrawBool(t, 30, "prevkv")
